@@ -38,6 +38,8 @@ pub enum Error {
     },
     #[error("struct `{parent}` contains duplicate field names: `{names:?}`")]
     StructFieldSameName { parent: Ident, names: Vec<Ident> },
+    #[error("struct `{parent}` is too large: its size does not fit the address space (member `{member}`)")]
+    StructTooLarge { parent: String, member: String },
 }
 
 impl StructVerifier {
@@ -78,7 +80,15 @@ impl StructVerifier {
                     });
                 }
 
-                size += i_size * count;
+                // Nested arrays of up to 65535 elements reach any size: an overflow is an
+                // error in the input, not a panic (debug) or a silent wrap (release).
+                size = i_size
+                    .checked_mul(count)
+                    .and_then(|bytes| size.checked_add(bytes))
+                    .ok_or_else(|| Error::StructTooLarge {
+                        parent: r#struct.to_string(),
+                        member: field.ident.to_string(),
+                    })?;
                 alignment = alignment.max(i_alignment);
             }
 
